@@ -38,6 +38,16 @@ Location = tuple[Union[str, int, "Location"], ...]
 RE_PROPERTY = re.compile(r"[\u0080-\uFFFFa-zA-Z_][\u0080-\uFFFFa-zA-Z0-9_-]*")
 
 
+def quote_string(value: str) -> str:
+    """Return _value_ as a Liquid string literal.
+
+    Liquid string literals have no escape sequences. Everything between the
+    opening quote and the next occurrence of the same quote is taken verbatim.
+    """
+    quote = '"' if "'" in value else "'"
+    return f"{quote}{value}{quote}"
+
+
 class Path(Expression):
     __slots__ = ("path",)
 
@@ -49,16 +59,15 @@ class Path(Expression):
         return isinstance(other, Path) and self.path == other.path
 
     def __str__(self) -> str:
-        it = iter(self.path)
-        buf = [str(next(it))]
-        for segment in it:
+        buf: list[str] = []
+        for segment in self.path:
             if isinstance(segment, Path):
                 buf.append(f"[{segment}]")
             elif isinstance(segment, str):
                 if RE_PROPERTY.fullmatch(segment):
-                    buf.append(f".{segment}")
+                    buf.append(f".{segment}" if buf else segment)
                 else:
-                    buf.append(f"[{segment!r}]")
+                    buf.append(f"[{quote_string(segment)}]")
             else:
                 buf.append(f"[{segment}]")
         return "".join(buf)
